@@ -1,5 +1,5 @@
 (* C15 - Casting to a (user-defined) tag type never yields a view larger than the tag. *)
-Require Import Bytes Outcome Layout Common UserTypes C15Proofs.
+Require Import Bytes Outcome Layout Common UserTypes TagType Mbi MbiTags C15Proofs.
 
 (* for every type descriptor T (BASE_SIZE, dst_len, layout - built-in or user-defined, truthful or
    not): a cast that returns, returns a reference at the tag's own address whose in-memory size
@@ -31,3 +31,11 @@ Theorem C15_user_extent : forall p d m r t es ea,
             sd_size_of_val d (Some n) = dref_size_of_val HTagH r.
 Proof. exact user_cast_extent. Qed.
 Print Assumptions C15_user_extent.
+
+(* BootInformation::get_tag::<T>() is one function for built-in and user-defined T: the typed getters of the
+   built-in kinds are its instances at (kind_typ k, kind_tdesc k); what C04 proves about the selection of the first
+   tag of a type and what this file proves about cast::<T> compose for every T *)
+Theorem C15_get_tag_generic : forall p k m r,
+  get_tag p k m r = get_tag_user p (kind_typ k) (kind_tdesc k) m r.
+Proof. reflexivity. Qed.
+Print Assumptions C15_get_tag_generic.
